@@ -126,4 +126,51 @@ theorem get?_addOrUpdate_mono (now : Nat) (m : Map) (s : Session) (k : Key) (v :
     rw [get?_append_single, hk]
     exact ⟨v, rfl, Nat.le_refl _⟩
 
+/-! ### the packet path: sweep and lookup -/
+
+/-- a key whose (first) entry has not expired survives the sweep with the same expiry -/
+theorem get?_dropStale (now : Nat) (m : Map) (k : Key) (v : Nat)
+    (hk : Map.get? m k = some v) (hv : now < v) : Map.get? (dropStale now m) k = some v := by
+  induction m with
+  | nil => simp [get?_nil] at hk
+  | cons kv m ih =>
+    rw [get?_cons] at hk
+    unfold dropStale at ih ⊢
+    rw [List.filter_cons]
+    by_cases h : kv.1 = k
+    · simp only [h, if_true, Option.some.injEq] at hk
+      have : decide (now < kv.2) = true := by simp [hk, hv]
+      rw [this]; simp only [if_true]
+      rw [get?_cons]; simp [h, hk]
+    · simp only [h, if_false] at hk
+      by_cases hp : decide (now < kv.2) = true
+      · rw [hp]; simp only [if_true]
+        rw [get?_cons]; simp only [h, if_false]
+        exact ih hk
+      · have hp' : decide (now < kv.2) = false := by simpa using hp
+        rw [hp']; simp only [Bool.false_eq_true, if_false]
+        exact ih hk
+
+/-- an expired entry does not survive the sweep: everything the sweep keeps expires later than `now` -/
+theorem dropStale_keeps_only_live (now : Nat) (m : Map) (kv : Key × Nat) (h : kv ∈ dropStale now m) : now < kv.2 := by
+  unfold dropStale at h
+  have := (List.mem_filter.mp h).2
+  simpa using this
+
+theorem tagProto_of_nextHeader (p : Nat) (h : p = 6 ∨ p = 17) : tagProto p = p := by
+  rcases h with h | h <;> subst h <;> rfl
+
+/-- the tag the packet path computes for a flow to the phantom (from the registrant when the phantom is
+IPv4, from anyone when it is IPv6) is the tag the session was stored under -/
+theorem flowTag_eq_tagOf (s : Session) (f : Flow) (hd : f.dst = s.phantom) (hp : f.dstPort = s.dstPort)
+    (hpr : f.proto = s.proto) (hs : s.phantom.isV4 = true → f.src = s.client) : flowTag f = tagOf s := by
+  unfold flowTag tagOf
+  rw [hd, hp, hpr]
+  cases h6 : s.phantom.isV6 with
+  | true => rfl
+  | false =>
+    have h4 : s.phantom.isV4 = true := by
+      unfold IpAddr.isV6 at h6; simpa using h6
+    rw [hs h4]
+
 end CJ.Detector
